@@ -281,7 +281,16 @@ const FOREIGN_KEYS: &[&str] = &[
 fn mutate(r: &mut Rng, f: &mut Vec<(String, String)>) -> u64 {
     let n = r.below(4);
     for _ in 0..n {
-        match r.below(7) {
+        match r.below(8) {
+            7 if !f.is_empty() => {
+                // every occurrence of one key disappears (a song without any duration, a status without state, ...)
+                let k = f[r.below(f.len())].0.clone();
+                let k = if k == "Time" || k == "duration" { None } else { Some(k) };
+                f.retain(|(kk, _)| match &k {
+                    Some(k) => kk != k,
+                    None => kk != "Time" && kk != "duration",
+                });
+            }
             0 if !f.is_empty() => {
                 let p = r.below(f.len());
                 f.remove(p);
@@ -462,7 +471,7 @@ impl Property for C12 {
             let (fields, binary) = source(&mut r, kind);
             acc.inc("edge_grid_replies");
             for p in 0..fields.len().min(24) {
-                for edge in VALUE_EDGES {
+                for (edge_no, edge) in VALUE_EDGES.iter().enumerate() {
                     let mut f = fields.clone();
                     if f[p].0 == "binary" {
                         continue;
@@ -485,6 +494,36 @@ impl Property for C12 {
                         }
                     }
                     acc.distinct("nontrivial", mix(&[hash_bytes(kind.as_bytes()), hash_bytes(f[p].0.as_bytes()), hash_bytes(edge.as_bytes())]));
+                    // the same reply once more with every line of ONE other key taken out (rotating through the keys;
+                    // `Time` and `duration` go together): a fallback computed from the edge value when another field is absent
+                    let mut groups: Vec<&str> = Vec::new();
+                    for (k, _) in &fields {
+                        let k = if k == "Time" { "duration" } else { k.as_str() };
+                        if !groups.contains(&k) && k != f[p].0 && k != "binary" {
+                            groups.push(k);
+                        }
+                    }
+                    if groups.is_empty() {
+                        continue;
+                    }
+                    let g = groups[((p * 31 + edge_no + i as usize) % groups.len()) as usize];
+                    let f2: Vec<(String, String)> = f.iter().filter(|(k, _)| !(k == g || (g == "duration" && k == "Time"))).cloned().collect();
+                    let Ok(frame) = frame_of(&f2, binary.clone()) else { continue };
+                    acc.inc("edge_grid_frames_with_another_key_absent");
+                    for (name, conv) in &convs {
+                        acc.inc("evaluations");
+                        acc.inc("conversions");
+                        let fr = frame.clone();
+                        match panics::catch(|| conv(fr)) {
+                            Ok(o) => acc.inc(&format!("outcome_{}", o)),
+                            Err(pn) => acc.violation(
+                                i,
+                                None,
+                                format!("{}::response (or reading its result) panicked on a {} reply with `{}: {}` and no `{}` line: {}", name, kind, f[p].0, edge.chars().take(40).collect::<String>(), g, pn.0),
+                                J::obj().set("command", *name).set("reply_kind", kind).set("reply", J::Arr(f2.iter().map(|(k, v)| J::Str(format!("{}: {}", k, v.chars().take(60).collect::<String>()))).collect())),
+                            ),
+                        }
+                    }
                 }
             }
             return;
@@ -546,7 +585,7 @@ impl Property for C12 {
     fn meta(&self, _cfg: &Cfg, _acc: &Acc) -> Meta {
         Meta {
             level: "exploration",
-            rule: "directed grid: in a well-formed reply of each of 21 kinds every field in turn gets every value of the 75-entry edge set; random part: frames are produced by the real parser from 21 kinds of well-formed replies (status, stats, count, grouped count, list, grouped list, listplaylists, sticker get/list/find, channels, readmessages, tagtypes, update, replay gain, addid, database and queue listings, album art with binary, empty, idle) with 0-3 mutations (drop/duplicate/reorder fields, foreign keys, values from a 70-entry edge set: 2^64, 1e309, NaN, inf, negative, ranges, '=', RFC 3339 garbage, 300-digit numbers), binary toggled; EVERY one of the 66 predefined command/constructor families converts every frame under catch_unwind inside child processes and the result is walked (Debug, Clone, ==, every iterator and accessor of List/Song/Timestamp/sticker types, error Display/source chain); typed lists: tuples of every arity 1-8 and Vec lengths 0-5 against frame counts 0..=n+2; default and chrono build; non-trivial = (command, frame) pair where the frame is not the command's own unmutated reply; distinct by (command, frame fields)".into(),
+            rule: "directed grid: in a well-formed reply of each of 21 kinds every field in turn gets every value of the edge set (now ~115 entries incl. ranges whose end precedes their start and sticker values repeating the requested name without `=`), once as is and once with every line of one other key (rotating; Time+duration together) taken out; random part: frames are produced by the real parser from 21 kinds of well-formed replies (status, stats, count, grouped count, list, grouped list, listplaylists, sticker get/list/find, channels, readmessages, tagtypes, update, replay gain, addid, database and queue listings, album art with binary, empty, idle) with 0-3 mutations (drop/duplicate/reorder fields, drop every line of one key, foreign keys, values from a 70-entry edge set: 2^64, 1e309, NaN, inf, negative, ranges, '=', RFC 3339 garbage, 300-digit numbers), binary toggled; EVERY one of the 66 predefined command/constructor families converts every frame under catch_unwind inside child processes and the result is walked (Debug, Clone, ==, every iterator and accessor of List/Song/Timestamp/sticker types, error Display/source chain); typed lists: tuples of every arity 1-8 and Vec lengths 0-5 against frame counts 0..=n+2; default and chrono build; non-trivial = (command, frame) pair where the frame is not the command's own unmutated reply; distinct by (command, frame fields)".into(),
             nontrivial_set: "nontrivial",
             assumptions: vec![
                 "frames can only be made by the real parser, so field names outside its alphabet [A-Za-z_-] cannot reach the typed layer today; such replies are counted as refused by the protocol layer".into(),
